@@ -47,6 +47,7 @@ func main() {
 	write("Autosave.lean", genAutosave())
 	write("AdminGate.lean", genAdminGate())
 	write("ProxyCount.lean", genProxyCount())
+	write("Forwarding.lean", genForwarding())
 
 	// typed scan, cached by content hash of the scanned sources
 	h := hashTree(filepath.Join(repo, "modules", "caddyhttp"))
@@ -1055,4 +1056,132 @@ func classify(pkg *packages.Package, fd *ast.FuncDecl, where, key string, arg as
 		return true
 	})
 	return out
+}
+
+// ---------------------------------------------------------------- C10: forwarding facts
+
+// stringLits returns the string literals of a composite literal, in source order.
+func stringLits(e ast.Expr) []string {
+	var out []string
+	if cl, ok := e.(*ast.CompositeLit); ok {
+		for _, el := range cl.Elts {
+			if bl, ok := el.(*ast.BasicLit); ok && bl.Kind == token.STRING {
+				s, _ := strconv.Unquote(bl.Value)
+				out = append(out, s)
+			}
+		}
+	}
+	return out
+}
+
+// leanBytesList renders strings as numeral byte lists (kernel-evaluable by `decide`).
+func leanBytesList(xs []string) string {
+	rows := make([]string, len(xs))
+	for i, x := range xs {
+		bs := make([]string, len(x))
+		for j := 0; j < len(x); j++ {
+			bs[j] = strconv.Itoa(int(x[j]))
+		}
+		rows[i] = "  [" + strings.Join(bs, ", ") + "]   -- " + strings.ReplaceAll(x, "\n", " ")
+	}
+	if len(rows) == 0 {
+		return "[]"
+	}
+	// the separating comma goes before the comment of each row
+	for i := 0; i < len(rows)-1; i++ {
+		rows[i] = strings.Replace(rows[i], "]   -- ", "],  -- ", 1)
+	}
+	return "[\n" + strings.Join(rows, "\n") + "\n  ]"
+}
+
+// genForwarding reads off:
+//   - reverseproxy.go `var hopHeaders = []string{…}`
+//   - app.go, App.Provision: the value assigned to `srv.ClientIPHeaders` (the default)
+//   - internal/ranges.go PrivateRangesCIDR(): the returned list
+//   - reverseproxy.go prepareRequest: the source order of (a) the call removeConnectionHeaders(…),
+//     (b) the `range hopHeaders` loop, (c) the call h.addForwardedHeaders(…)
+//   - reverseproxy.go addForwardedHeaders: the first arguments of req.Header.Set(…) / req.Header.Del(…), in order
+func genForwarding() string {
+	_, rf := parseFile("modules/caddyhttp/reverseproxy/reverseproxy.go")
+	var hop []string
+	if rf != nil {
+		ast.Inspect(rf, func(x ast.Node) bool {
+			if vs, ok := x.(*ast.ValueSpec); ok && len(vs.Names) == 1 && vs.Names[0].Name == "hopHeaders" && len(vs.Values) == 1 {
+				hop = stringLits(vs.Values[0])
+				return false
+			}
+			return true
+		})
+	}
+	var order []string
+	if fd := findFunc(rf, "Handler", "prepareRequest"); fd != nil {
+		ast.Inspect(fd.Body, func(x ast.Node) bool {
+			switch n := x.(type) {
+			case *ast.CallExpr:
+				switch exprText(n.Fun) {
+				case "removeConnectionHeaders":
+					order = append(order, "removeConnectionHeaders")
+				case "h.addForwardedHeaders":
+					order = append(order, "addForwardedHeaders")
+				}
+			case *ast.RangeStmt:
+				if exprText(n.X) == "hopHeaders" {
+					order = append(order, "hopHeadersLoop")
+				}
+			}
+			return true
+		})
+	}
+	var sets, dels []string
+	if fd := findFunc(rf, "Handler", "addForwardedHeaders"); fd != nil {
+		ast.Inspect(fd.Body, func(x ast.Node) bool {
+			if ce, ok := x.(*ast.CallExpr); ok && len(ce.Args) >= 1 {
+				if bl, ok := ce.Args[0].(*ast.BasicLit); ok && bl.Kind == token.STRING {
+					k, _ := strconv.Unquote(bl.Value)
+					switch exprText(ce.Fun) {
+					case "req.Header.Set":
+						sets = append(sets, k)
+					case "req.Header.Del":
+						dels = append(dels, k)
+					}
+				}
+			}
+			return true
+		})
+	}
+	_, af := parseFile("modules/caddyhttp/app.go")
+	var dflt []string
+	if fd := findFunc(af, "App", "Provision"); fd != nil {
+		ast.Inspect(fd.Body, func(x ast.Node) bool {
+			if as, ok := x.(*ast.AssignStmt); ok && len(as.Lhs) == 1 && len(as.Rhs) == 1 && exprText(as.Lhs[0]) == "srv.ClientIPHeaders" {
+				dflt = stringLits(as.Rhs[0])
+			}
+			return true
+		})
+	}
+	_, pf := parseFile("internal/ranges.go")
+	var priv []string
+	if fd := findFunc(pf, "", "PrivateRangesCIDR"); fd != nil {
+		ast.Inspect(fd.Body, func(x ast.Node) bool {
+			if rs, ok := x.(*ast.ReturnStmt); ok && len(rs.Results) == 1 {
+				priv = stringLits(rs.Results[0])
+			}
+			return true
+		})
+	}
+	var sb strings.Builder
+	sb.WriteString(header)
+	sb.WriteString("/-- `hopHeaders` (reverseproxy.go), in source order, as bytes -/\n")
+	sb.WriteString("def hopHeaders : List (List UInt8) := " + leanBytesList(hop) + "\n\n")
+	sb.WriteString("/-- the value `App.Provision` assigns to a nil `srv.ClientIPHeaders` (app.go) -/\n")
+	sb.WriteString("def defaultClientIPHeaders : List (List UInt8) := " + leanBytesList(dflt) + "\n\n")
+	sb.WriteString("/-- `internal.PrivateRangesCIDR()` (the `private_ranges` shortcut), in source order -/\n")
+	sb.WriteString("def privateRanges : List (List UInt8) := " + leanBytesList(priv) + "\n\n")
+	sb.WriteString("/-- `prepareRequest`: source order of the hop-by-hop steps and of the call that adds X-Forwarded-* -/\n")
+	sb.WriteString("def prepareRequestOrder : List String := " + leanStrList(order) + "\n\n")
+	sb.WriteString("/-- `addForwardedHeaders`: literal keys of `req.Header.Del(…)` (error path) and `req.Header.Set(…)`, in source order -/\n")
+	sb.WriteString("def forwardedDelKeys : List (List UInt8) := " + leanBytesList(dels) + "\n")
+	sb.WriteString("def forwardedSetKeys : List (List UInt8) := " + leanBytesList(sets) + "\n")
+	sb.WriteString(footer)
+	return sb.String()
 }
